@@ -191,6 +191,7 @@ func RunReach(t *testing.T, rc *ReachCase) *ReachResult {
 		for _, b := range sn.Brokers {
 			everListed[b.Addr] = true
 		}
+		tainted := false
 		for k, beh := range rc.Refresh {
 			bm, err := rc.behav(beh)
 			if err != nil {
@@ -287,7 +288,19 @@ func RunReach(t *testing.T, rc *ReachCase) *ReachResult {
 				} else if rc.Conc > 1 {
 					conc = " after-concurrent-phase"
 				}
-				res.Viol = append(res.Viol, Violation{fmt.Sprintf("RefreshMetadata:fails-although-a-%s-answers rm=%d%s", who, rc.RM, conc),
+				sig := fmt.Sprintf("RefreshMetadata:fails-although-a-%s-answers rm=%d%s", who, rc.RM, conc)
+				if ncall > 1 {
+					// the callers of this phase are real goroutines whose interleaving is the Go scheduler's: what goes wrong here
+					// is not reproducible, and ONE signature stands for it (the controlled exploration of concurrent refreshes is
+					// rig cli2). What such a failure leaves behind is not judged either
+					sig = fmt.Sprintf("RefreshMetadata:concurrent-calls-fail-although-a-candidate-answers concurrent-calls=%d", ncall)
+					tainted = true
+				} else if tainted {
+					res.Stats["not-judged:after-a-failed-concurrent-phase"]++
+					res.Outcome += " refresh:fail(after-failed-concurrent-phase)"
+					continue
+				}
+				res.Viol = append(res.Viol, Violation{sig,
 					fmt.Sprintf("RefreshMetadata #%d returned %q although a %s answers (behaviours %s over seeds 1..%d + brokers 1..%d; client knew brokers %v; client state before the call %s)", k+1, rerr, who, beh, len(rc.Seeds), rc.Known, known, dump)})
 				res.Outcome += " refresh:fail!"
 			case !canOK && rerr == nil:
